@@ -73,9 +73,9 @@ theorem lone_phy {cfg : Cfg} {aL me x : Nat} {b : Bus} (hlog : LoneLog cfg aL me
 delivered) and `rs` (not yet consumed); its buffer holds exactly what has arrived of `rs`, the head of `rs` is
 incomplete; it listens, the next character arrives before its token-lost time-out, and its ring view is what the
 telegrams `hd` consumed so far made of `r0`. -/
-def LLOk (cfg : Cfg) (aL : Nat) (b : Bus) (H : Int) (j : Nat) (st : NetStation) (r0 : TokenRing) (hd : List Telegram) : Prop :=
+def LLOk (cfg : Cfg) (G aL : Nat) (b : Bus) (H : Int) (j : Nat) (st : NetStation) (r0 : TokenRing) (hd : List Telegram) : Prop :=
   st.online = true ∧ st.dead = false ∧ Inv st.s st.apps ∧ st.s.online = true ∧ aL ≠ st.s.p.address ∧
-  cfg.gmax + cfg.ce 0 + 2 ≤ st.s.p.tokenLostTimeout ∧ st.s.ring = hearAll aL hd r0 ∧
+  G + cfg.ce 0 + 2 ≤ st.s.p.tokenLostTimeout ∧ st.s.ring = hearAll aL hd r0 ∧
   ∃ (dn rs : List Transmission) (l : Int) (coll : Nat),
     b.txs = dn ++ rs ∧ (∀ o ∈ dn, cEnd cfg o ≤ b.seen.getD j 0) ∧
     st.rx = arrived cfg rs (b.seen.getD j 0) ∧ st.s.pendingBytes ≤ (arrived cfg rs (b.seen.getD j 0)).length ∧
@@ -86,14 +86,14 @@ def LLOk (cfg : Cfg) (aL : Nat) (b : Bus) (H : Int) (j : Nat) (st : NetStation) 
 /-- **One poll of a listening station that overhears the lone transmitter**: the bus hands over `inc`, the poll
 returns regularly and transmits nothing, and the listener condition holds again (with the telegrams consumed in
 this poll appended to `hd`). -/
-theorem llisten_step {cfg : Cfg} {aL x : Nat} {b : Bus} {H : Int} {j : Nat} {st : NetStation} {r0 : TokenRing}
-    {hd : List Telegram} (hL : LLOk cfg aL b H j st r0 hd) (hlog : LoneLog cfg aL st.s.p.address x b) (hr : 0 < cfg.rate)
+theorem llisten_step {cfg : Cfg} {G aL x : Nat} {b : Bus} {H : Int} {j : Nat} {st : NetStation} {r0 : TokenRing}
+    {hd : List Telegram} (hL : LLOk cfg G aL b H j st r0 hd) (hlog : LoneLog cfg aL st.s.p.address x b) (hr : 0 < cfg.rate)
     (haL : aL < 126) (hjx : j ≠ x) (hjl : j < b.seen.length) (now : Int) (hsn : b.seen.getD j 0 < now) (hnowH : now ≤ H)
     (hstart : ∀ t ∈ b.txs, t.start ≤ now)
-    (hH : ∀ t, b.txs.getLast? = some t → H ≤ cEnd cfg t + (cfg.gmax : Nat)) :
+    (hH : ∀ t, b.txs.getLast? = some t → H ≤ cEnd cfg t + (G : Nat)) :
     ∃ inc c hd', b.deliver j now = ({ b with seen := b.seen.set j now }, inc) ∧
       st.s.poll st.apps now (b.transmitting j now) (st.rx ++ inc) = .ok c ∧ c.tx = none ∧ c.s.p = st.s.p ∧
-      LLOk cfg aL { b with seen := b.seen.set j now } H j (upSt st c) r0 hd' := by
+      LLOk cfg G aL { b with seen := b.seen.set j now } H j (upSt st c) r0 hd' := by
   obtain ⟨hon, hal, hinv, hson, hne, htto, hring, dn, rs, l, coll, h1, h2, h4, h5, h6, h7, h8, hst, h10⟩ := hL
   have hc0 := cfg.ce_pos hr 0
   have hphy := lone_phy hlog j hjx now
@@ -187,7 +187,6 @@ theorem llisten_step {cfg : Cfg} {aL x : Nat} {b : Bus} {H : Int} {j : Nat} {st 
         | nil => simp [arrived] at hnew
         | cons t rest =>
           have := nextArr_after cfg hr H t rest now (hhead' t rest rfl).1 (hstart t (by rw [h1]; simp))
-          unfold Cfg.gmax at htto
           omega
       · rw [if_neg hnew]
         have hlt := hnonew (by omega)
@@ -285,7 +284,6 @@ theorem llisten_step {cfg : Cfg} {aL x : Nat} {b : Bus} {H : Int} {j : Nat} {st 
       | cons t rest =>
         have := nextArr_after cfg hr H t rest now (hhead t rest hdr).1
           (hstart t (by rw [h1]; apply List.mem_append_right; apply List.mem_of_mem_drop (i := k); rw [hdr]; simp))
-        unfold Cfg.gmax at htto
         omega
 
 end PV
